@@ -134,4 +134,5 @@ Inductive ev :=
 | EvUpdateFlag | EvAck | EvReply | EvReplyPayload | EvNewReplyHdr
 | EvSendReq (fn : string) (code : N) | EvRecv (kind : string) | EvSend (name : string)
 | EvAssign (field : string) | EvHelper (name : string) | EvHelperEnd (name : string)
-| EvLocalErr | EvReturn.
+| EvLocalErr | EvReturn
+| EvLock (how : string) | EvUnlock.
